@@ -104,8 +104,8 @@ def shapes(tier):
                    ['a', 'g', 's']))
     s.append(Shape('two_projects_overlapping_names', 'r',
                    {'r': {'dir': '/r', 'targets': {'a': 'build', 'b': 'build', 'x': 'build'}}, 'q': {'dir': '/q', 'targets': {'a': 'build', 'b': 'build'}}},
-                   [('r', 'a', 'dep', 'b'), ('r', 'a', 'dep', 'q::a'), ('q', 'a', 'dep', 'b'), ('q', 'a', 'out', 'b.output'), ('r', 'b', 'out', 'q::b.output'),
-                    ('q', 'b', 'dep', 'x'), ('q', 'b', 'dep', 'r::x'), ('r', 'x', 'dep', 'q::zz')],
+                   [('r', 'a', 'dep', 'b'), ('r', 'a', 'dep', 'q::b'), ('r', 'a', 'out', 'b.output'), ('q', 'a', 'dep', 'b'), ('q', 'a', 'out', 'b.output'),
+                    ('r', 'b', 'out', 'q::b.output'), ('q', 'b', 'dep', 'r::x'), ('r', 'x', 'dep', 'q::zz'), ('r', 'a', 'dep', 'q::a')],
                    ['a', 'r::a', 'q::a', 'q::b', 'b']))
     if tier == 'thorough':
         s.append(Shape('unnamed_root_importing', None,
